@@ -405,7 +405,7 @@ def run(chk, repo, tier):
     from . import c09 as _c09
     from ..resilient import run_nested as _run_nested2
     nd2 = list(chk.not_decided)
-    _run_nested2(_c09, Remap(chk, {'C09-e': 'C02-k', 'C09-h': 'C02-k', 'C09-g': 'C02-d', 'C09-f': 'C02-k'}), repo, tier)
+    _run_nested2(_c09, Remap(chk, {'C09-e': 'C02-k', 'C09-c': 'C02-k', 'C09-h': 'C02-k', 'C09-g': 'C02-d', 'C09-f': 'C02-k'}), repo, tier)
     chk.not_decided[:] = nd2
     chk.not_decided += ['absolute complex field values', 'placement errors applied symmetrically to both axes '
                         'that also preserve every extent identity']
